@@ -406,18 +406,31 @@ class JSRegExp(JSObject):
         self.set("lastIndex", value)
         self._internal.lastIndex = value
 
+    def _sync_in(self) -> None:
+        """Hand ToLength(lastIndex) to the matcher: the property may hold any
+        value script code assigned (a fraction, a string, a negative number)."""
+        number = to_number(self.get("lastIndex"))
+        if number != number:  # NaN
+            number = 0
+        self._internal.lastIndex = int(min(max(number, 0), 2**53 - 1))
+
+    def _sync_out(self) -> None:
+        """Only global and sticky regexes write lastIndex."""
+        if self._internal._global or self._internal._sticky:
+            self.set("lastIndex", self._internal.lastIndex)
+
     def test(self, string: str) -> bool:
         """Test if the pattern matches the string."""
-        self._internal.lastIndex = self.lastIndex
+        self._sync_in()
         result = self._internal.test(string)
-        self.lastIndex = self._internal.lastIndex
+        self._sync_out()
         return result
 
     def exec(self, string: str):
         """Execute a search for a match."""
-        self._internal.lastIndex = self.lastIndex
+        self._sync_in()
         result = self._internal.exec(string)
-        self.lastIndex = self._internal.lastIndex
+        self._sync_out()
 
         if result is None:
             return NULL
